@@ -14,3 +14,6 @@ func Yield(point string, key func() string) {
 		h(point, key())
 	}
 }
+
+// NoKey is the key function of yield points that have no key.
+func NoKey() string { return "" }
